@@ -629,10 +629,25 @@ func (r *rewriter) insertStmtYields() {
 		}
 		return out
 	}
+	// the body of a switch / select is a list of clauses, not of statements
+	clauseBodies := map[*ast.BlockStmt]bool{}
+	ast.Inspect(r.file, func(n ast.Node) bool {
+		switch x := n.(type) {
+		case *ast.SwitchStmt:
+			clauseBodies[x.Body] = true
+		case *ast.TypeSwitchStmt:
+			clauseBodies[x.Body] = true
+		case *ast.SelectStmt:
+			clauseBodies[x.Body] = true
+		}
+		return true
+	})
 	ast.Inspect(r.file, func(n ast.Node) bool {
 		switch x := n.(type) {
 		case *ast.BlockStmt:
-			x.List = doList(x.List)
+			if !clauseBodies[x] {
+				x.List = doList(x.List)
+			}
 		case *ast.CaseClause:
 			x.Body = doList(x.Body)
 		case *ast.CommClause:
